@@ -403,7 +403,7 @@ func c02GenIncludeFault(r *xrand.Rand, idx int, tier string) *fw.Case {
 	if target == root && len(chain) > 1 && r.Chance(3, 4) {
 		target = chain[1]
 	}
-	kind := []string{"bad-char", "dup-type", "undefined-type", "undefined-tag", "unknown-directive-param", "dup-server", "bad-schema", "chained-type-fault", "chained-type-fault", "unclosed-paren", "path-param-object-type", "path-param-object-type"}[r.Intn(12)]
+	kind := []string{"bad-char", "dup-type", "undefined-type", "undefined-tag", "unknown-directive-param", "dup-server", "bad-schema", "chained-type-fault", "chained-type-fault", "unclosed-paren", "path-param-object-type", "path-param-object-type", "path-body-regex-type", "path-body-regex-type"}[r.Intn(14)]
 	var faultLines, innocent []string
 	faultLine := 0 // index within faultLines of the directive line the diagnostic must point into
 	switch kind {
@@ -440,6 +440,22 @@ func c02GenIncludeFault(r *xrand.Rand, idx int, tier string) *fw.Case {
 		root.lines = append([]string{root.lines[0], fmt.Sprintf("TYPE @objT%d", uniq), "{\"a\": 1}"}, root.lines[1:]...)
 		faultLines = []string{fmt.Sprintf("GET /pp%d/{id}", uniq), "  Path", "  {", fmt.Sprintf("    \"id\": @objT%d", uniq), "  }", "  200 any"}
 		innocent = []string{fmt.Sprintf("GET /zz%d/{k}", uniq), "  Path", "  {", "    \"k\": 1", "  }", "  200 any"}
+	case "path-body-regex-type":
+		// the body of a Path directive is a reference (directly or through an alias type) to a regex type: the regex
+		// type itself is valid and stands at the top of the root file; the directive at fault is the Path directive
+		uniq++
+		heads := []string{fmt.Sprintf("TYPE @rxT%d regex", uniq), "/[a-z]{3}/"}
+		ref := fmt.Sprintf("@rxT%d", uniq)
+		if r.Bool() {
+			heads = append(heads, fmt.Sprintf("TYPE @rxA%d", uniq), ref)
+			ref = fmt.Sprintf("@rxA%d", uniq)
+		}
+		if r.Bool() {
+			// the valid regex type is also used validly elsewhere
+			heads = append(heads, fmt.Sprintf("GET /rxu%d", uniq), fmt.Sprintf("  200 @rxT%d", uniq))
+		}
+		root.lines = append(append([]string{root.lines[0]}, heads...), root.lines[1:]...)
+		faultLines = []string{fmt.Sprintf("GET /pr%d/{id}", uniq), "  Path", "    " + ref, "  200 any"}
 	case "chained-type-fault":
 		// a chain of user types @ch_0 -> @ch_1 -> ... whose LAST link has a fault that only loading/checking finds; the
 		// earlier links stand at the top of the root file (declared first), the faulty one at the end of the target file
@@ -483,7 +499,7 @@ func c02GenIncludeFault(r *xrand.Rand, idx int, tier string) *fw.Case {
 			}
 			lo = off
 			hi = off + len(f.lines[at+faultLine])
-			if kind == "dup-type" || kind == "dup-server" || kind == "bad-char" || kind == "unknown-directive-param" || kind == "chained-type-fault" || kind == "unclosed-paren" || kind == "path-param-object-type" {
+			if kind == "dup-type" || kind == "dup-server" || kind == "bad-char" || kind == "unknown-directive-param" || kind == "chained-type-fault" || kind == "unclosed-paren" || kind == "path-param-object-type" || kind == "path-body-regex-type" {
 				// whole directive (keyword line .. end of its last line)
 				hi = off
 				for i := at; i < at+len(faultLines); i++ {
